@@ -129,19 +129,29 @@ func (r *Run) tryReplay(o *Obligation, rf *ReplayFile) {
 	if o.fc == nil {
 		return
 	}
+	// <func>.<label>.tmpl (label = any substring of the obligation name) is preferred over <func>.tmpl
 	tmplPath := filepath.Join(r.Out, "replay_templates", o.Func+".tmpl")
+	if cands, _ := filepath.Glob(filepath.Join(r.Out, "replay_templates", o.Func+".*.tmpl")); len(cands) > 0 {
+		for _, c := range cands {
+			mid := strings.TrimSuffix(strings.TrimPrefix(filepath.Base(c), o.Func+"."), ".tmpl")
+			if mid != "" && strings.Contains(o.Name, mid) {
+				tmplPath = c
+				break
+			}
+		}
+	}
 	tb, err := os.ReadFile(tmplPath)
 	if err != nil {
 		rf.Note = "no replay template for " + o.Func + "; solver output attached"
 		return
 	}
-	if o.Answer != "sat" || o.Model == nil {
-		rf.Note = "the solver gave no model (" + o.Answer + "); the obligation discharged on the unchanged tree and fails on this one"
-		return
-	}
+	// a template that needs no model values (it replays a fixed history) can run even without a model
 	data := map[string]any{"Obligation": o.Name, "Class": o.Class, "Package": o.fc.pkg.Name}
 	inputs := map[string]string{}
 	for name, t := range o.fc.paramInit {
+		if o.Model == nil {
+			break
+		}
 		lit, ok := goLiteral(t, o.Model)
 		if !ok {
 			continue
